@@ -228,6 +228,7 @@ fn c17_not_in_block_step() {
 	}
 	if a == Step::Val {
 		assert!(matches!(r.reader_state, ReaderState::InBlock { .. }), "OBL C17.value.only_from_inside_a_block");
+		assert!(!r.pretend_eof_because_yielded_unrecoverable_error, "OBL C17.value.nothing_latched");
 	}
 	std::mem::forget(r);
 }
